@@ -358,7 +358,11 @@ class Quantity:
 
         if category.__class__ is OrderedDict:
             assert unit is None
-            self._category_to_unit_and_exps = category
+            # own copy with [unit, exp] lists: unit matching assigns to these cells, and the mapping given by
+            # the caller may hold tuples or be changed by the caller later
+            self._category_to_unit_and_exps = OrderedDict(
+                (cat, list(unit_and_exp)) for cat, unit_and_exp in category.items()
+            )
             self._is_derived = True
 
             rep_and_exp: OrderedDict[Any, Any] = OrderedDict()
